@@ -46,10 +46,49 @@ func (s stubFiles) FindDescriptorByName(n protoreflect.FullName) (protoreflect.D
 	case s.ans == "n":
 		// some enum descriptor
 		return protoregistry.GlobalFiles.FindDescriptorByName("google.protobuf.FieldDescriptorProto.Type")
+	case strings.HasPrefix(s.ans, "n:"):
+		// a non-message descriptor of another kind: field, oneof, enum value, (service, method when registered)
+		return nonMessageDescriptor(s.ans[2:]), nil
 	case s.ans == "nf":
 		return nil, protoregistry.NotFound
 	}
 	return nil, fmt.Errorf("scripted resolver error")
+}
+
+// nonMessageDescriptor returns a registered descriptor of the given kind (nil-safe: falls back to an enum).
+func nonMessageDescriptor(kind string) protoreflect.Descriptor {
+	var found protoreflect.Descriptor
+	protoregistry.GlobalFiles.RangeFiles(func(fd protoreflect.FileDescriptor) bool {
+		switch kind {
+		case "service":
+			if fd.Services().Len() > 0 {
+				found = fd.Services().Get(0)
+			}
+		case "method":
+			if fd.Services().Len() > 0 && fd.Services().Get(0).Methods().Len() > 0 {
+				found = fd.Services().Get(0).Methods().Get(0)
+			}
+		case "enumvalue":
+			if fd.Enums().Len() > 0 {
+				found = fd.Enums().Get(0).Values().Get(0)
+			}
+		default:
+			for i := 0; i < fd.Messages().Len() && found == nil; i++ {
+				md := fd.Messages().Get(i)
+				if kind == "field" && md.Fields().Len() > 0 {
+					found = md.Fields().Get(0)
+				}
+				if kind == "oneof" && md.Oneofs().Len() > 0 {
+					found = md.Oneofs().Get(0)
+				}
+			}
+		}
+		return found == nil
+	})
+	if found == nil {
+		found, _ = protoregistry.GlobalFiles.FindDescriptorByName("google.protobuf.FieldDescriptorProto.Type")
+	}
+	return found
 }
 
 func runAnyutil(cfg *Cfg) {
@@ -200,7 +239,7 @@ func runAnyutil(cfg *Cfg) {
 	urls := []string{"/" + some, some, "type.googleapis.com/" + some, "/", "", "/nothing.Here", "//" + some, "/google.protobuf.FieldDescriptorProto.Type",
 		"/google.protobuf.FieldDescriptorProto", "garbage/with/slashes", "/" + some + "/", "\x00", "/testpb.Enumeration", "/goproto.proto.test3.ForeignEnum"}
 	answersT := []string{"m:" + some, "m:google.protobuf.FieldDescriptorProto", "nf", "oe"}
-	answersF := []string{"m:" + some, "m:google.protobuf.FieldDescriptorProto", "n", "nf", "oe"}
+	answersF := []string{"m:" + some, "m:google.protobuf.FieldDescriptorProto", "n", "n:field", "n:oneof", "n:enumvalue", "n:service", "n:method", "nf", "oe"}
 	goodVal, _ := proto.Marshal(targets[0].B.ToMessage(0, vval.Empty(targets[0].S, 0)))
 	for _, u := range urls {
 		for _, at := range answersT {
@@ -225,8 +264,20 @@ func runAnyutil(cfg *Cfg) {
 			}
 		}
 	}
-	// real registries with URLs naming enums / services / nothing (the original defect)
-	for _, u := range urls {
+	// real registries with URLs naming enums / services / fields / oneofs / enum values / nothing
+	realURLs := append([]string{}, urls...)
+	for _, k := range []string{"field", "oneof", "enumvalue", "service", "method"} {
+		realURLs = append(realURLs, "/"+string(nonMessageDescriptor(k).FullName()))
+	}
+	for _, t := range targets {
+		if t.Desc.Fields().Len() > 0 {
+			realURLs = append(realURLs, "/"+string(t.Desc.Fields().Get(0).FullName()))
+		}
+		if t.Desc.Oneofs().Len() > 0 {
+			realURLs = append(realURLs, "/"+string(t.Desc.Oneofs().Get(0).FullName()))
+		}
+	}
+	for _, u := range realURLs {
 		for _, tr := range []protoregistry.MessageTypeResolver{nil, emptyTypes} {
 			any := &anypb.Any{TypeUrl: u}
 			p, pm := guard(func() { _, _ = anyutil.Unpack(any, nil, tr) })
@@ -240,6 +291,9 @@ func runAnyutil(cfg *Cfg) {
 }
 
 func scriptAns(a string) string {
+	if strings.HasPrefix(a, "n:") {
+		return "n" // the model has one class "descriptor that is not a message"
+	}
 	if strings.HasPrefix(a, "m:") {
 		return "m:" + hex.EncodeToString([]byte(a[2:]))
 	}
